@@ -13,6 +13,7 @@ import (
 	"math/rand"
 	"reflect"
 	"strings"
+	"time"
 
 	"github.com/influxdata/kapacitor/tick"
 	"github.com/influxdata/kapacitor/tick/ast"
@@ -131,7 +132,7 @@ func (x *gen) sweepLiterals(emit func(item)) {
 				emit(item{Cls: "lit", Edge: "stream", Tag: tag + ":paren", Want: &l, Src: "stream\n    |from()\n    |where(lambda: (" + l.Text + ") < \"v\")\n"})
 			case "bool":
 				emit(item{Cls: "lit", Edge: "stream", Tag: tag + ":var", Want: &l, Src: "var x = " + l.Text + "\nstream\n    |from()\n    |where(lambda: x)\n"})
-				emit(item{Cls: "lit", Edge: "stream", Tag: tag + ":arg", Want: &l, Src: "stream\n    |from()\n    |log()\n        .quiet(" + l.Text + ")\n"})
+				emit(item{Cls: "lit", Edge: "stream", Tag: tag + ":arg", Want: &l, Src: "stream\n    |from()\n    @udfS()\n        .optB(" + l.Text + ")\n"})
 				emit(item{Cls: "lit", Edge: "stream", Tag: tag + ":lambda", Want: &l, Src: "stream\n    |from()\n    |where(lambda: \"b\" == " + l.Text + " OR !" + l.Text + ")\n"})
 			}
 		}
@@ -185,9 +186,9 @@ var handScripts = []item{
 		Vars: map[string]tick.Var{
 			"m": {Value: "cpu", Type: ast.TString}, "thr": {Value: 1.5, Type: ast.TFloat},
 			"crit": {Value: mustLambda(`"mean" - (1 - 2) > 0`), Type: ast.TLambda},
-			"tags": {Value: []tick.Var{{Value: "a", Type: ast.TString}, {Value: &ast.StarNode{}, Type: ast.TStar}}, Type: ast.TList},
+			"tags": {Value: []tick.Var{{Value: "a", Type: ast.TString}, {Value: "b c", Type: ast.TString}}, Type: ast.TList},
 			"re":   {Value: mustRegex(`a/b`), Type: ast.TRegex}, "n": {Value: int64(3), Type: ast.TInt},
-			"flag": {Value: true, Type: ast.TBool}, "d": {Value: 5 * 1000 * 1000 * 1000, Type: ast.TDuration},
+			"flag": {Value: true, Type: ast.TBool}, "d": {Value: 5 * time.Second, Type: ast.TDuration},
 		}},
 	{Tag: "batch:query", Edge: "batch", Src: "batch\n    |query('''SELECT mean(\"v\") FROM \"db\".\"rp\".\"m\" WHERE \"h\" = 'a' ''')\n        .period(10s)\n        .every(5s)\n        .groupBy(time(1s), 'a', 'b')\n        .offset(1s)\n        .align()\n        .fill(0)\n    |log()\n"},
 	{Tag: "batch:query-time-offset", Edge: "batch", Src: "batch\n    |query('SELECT v FROM db.rp.m')\n        .period(10s)\n        .cron('*/5 * * * *')\n        .groupBy(time(10s, -2s), *)\n        .fill('null')\n"},
